@@ -301,6 +301,31 @@ pub static OPS: &[Op] = &[
         let f = Epoch::from_duration(Duration::from_parts(c, n), a[2].ts());
         (format!("eq={} eq'={} ne={} cmp={:?}", e == f, f == e, e != f, e.cmp(&f)), format!("eq={} eq'={} ne={} cmp={:?}", x == 0, x == 0, x != 0, x.cmp(&-x)))
     }},
+    Op { name: "epoch_cmp_utc", sig: &[Ty::Dur, Ty::Dur, Ty::Bool], pre: |a| a[0].total().abs() < 1000 * NPC && a[1].total().abs() < 1000 * NPC, f: |a| {
+        // one operand in UTC (count a[0]), the other in TAI (count a[1]); both operand orders.  == and cmp answer the
+        // chronological question about the instants; with the UTC epoch on the left, cmp is only specified when the TAI
+        // instant is outside an inserted second (it has no UTC count there); == is specified everywhere
+        let u = Epoch::from_duration(a[0].dur(), TimeScale::UTC);
+        let iu = a[0].total() + offset_at_utc_ns(a[0].total()) * 1_000_000_000;
+        // the TAI operand lies within +/- 2 s of the UTC operand's instant (second argument used as a pseudo-random offset)
+        let sel = a[1].total().rem_euclid(3);
+        let it = if sel == 0 {
+            iu + [-1_000_000_000i128, 1_000_000_000, 0, 1, -1, 10_000_000_000, -10_000_000_000, 500_000_000][(a[1].total().rem_euclid(24) / 3) as usize]
+        } else {
+            iu + (a[1].total().rem_euclid(4_000_000_001) - 2_000_000_000)
+        };
+        let (tc, tn) = parts_of(it);
+        let t = Epoch::from_duration(Duration::from_parts(tc, tn), TimeScale::TAI);
+        let s = 1_000_000_000;
+        let inside = leap_table().iter().enumerate().any(|(i, (ts, d))| { let prev = if i == 0 { 0 } else { d - 1 }; it >= (ts + prev) * s && it < (ts + d) * s });
+        if a[2].boolean() {
+            let cmp_s = if inside { "unspecified".to_string() } else { format!("{:?}", u.cmp(&t)) };
+            let cmp_e = if inside { "unspecified".to_string() } else { format!("{:?}", iu.cmp(&it)) };
+            (format!("eq={} ne={} cmp={}", u == t, u != t, cmp_s), format!("eq={} ne={} cmp={}", iu == it, iu != it, cmp_e))
+        } else {
+            (format!("eq={} ne={} cmp={:?} pcmp={:?}", t == u, t != u, t.cmp(&u), t.partial_cmp(&u)), format!("eq={} ne={} cmp={:?} pcmp={:?}", it == iu, it != iu, it.cmp(&iu), Some(it.cmp(&iu))))
+        }
+    }},
     // ---------------------------------------------------------------- C14 epoch snapping
     Op { name: "epoch_floor_ceil_round", sig: &[Ty::Dur, Ty::Ts, Ty::Dur], pre: no_d1_snap, f: |a| {
         let e = Epoch::from_duration(a[0].dur(), a[1].ts());
@@ -382,41 +407,16 @@ pub static OPS: &[Op] = &[
             else if reject && r.is_ok() { "invalid date-time accepted".to_string() } else { "ok".to_string() };
         (verdict, "ok".to_string())
     }},
-    Op { name: "gregorian_leap_second", sig: &[Ty::U8, Ty::Bool, Ty::Ts], pre: always, f: |a| {
-        // second = 60 at 23:59 on 30 June / 31 December of 1960 + (n mod 70): accepted exactly on the IERS leap-second days
+    Op { name: "gregorian_leap_second", sig: &[Ty::U8, Ty::U8, Ty::Bool, Ty::Ts], pre: always, f: |a| {
+        // second = 60 at 23:59 on the LAST day of any month (or, when the flag is false, on the day before it) of
+        // 1960 + (n mod 70): accepted exactly on the IERS leap-second days
         let y = 1960 + (a[0].int() % 70);
-        let (mo, d) = if a[1].boolean() { (6, 30) } else { (12, 31) };
-        let r = Epoch::maybe_from_gregorian(y as i32, mo as u8, d as u8, 23, 59, 60, 0, a[2].ts());
+        let mo = 1 + (a[1].int() % 12);
+        let d = if a[2].boolean() { month_len(y, mo) } else { month_len(y, mo) - 1 };
+        let r = Epoch::maybe_from_gregorian(y as i32, mo as u8, d as u8, 23, 59, 60, 0, a[3].ts());
         let verdict = if strict_valid(y, mo, d, 23, 59, 60, 0) && r.is_err() { format!("leap second {}-{}-{}T23:59:60 rejected", y, mo, d) }
             else if must_reject(y, mo, d, 23, 59, 60, 0) && r.is_ok() { format!("{}-{}-{}T23:59:60 accepted although no leap second was inserted", y, mo, d) } else { "ok".to_string() };
         (verdict, "ok".to_string())
-    }},
-    // ---------------------------------------------------------------- C09 Epoch -> Gregorian fields
-    Op { name: "gregorian_roundtrip", sig: &[Ty::I32, Ty::U8, Ty::U8, Ty::U8, Ty::U8, Ty::U8, Ty::U32, Ty::Ts], pre: |a| {
-        a[0].int().abs() <= 30_000 && strict_valid(a[0].int(), a[1].int(), a[2].int(), a[3].int(), a[4].int(), a[5].int(), a[6].int()) && a[5].int() < 60
-    }, f: |a| {
-        let (y, mo, d, h, mi, s, ns) = (a[0].int(), a[1].int(), a[2].int(), a[3].int(), a[4].int(), a[5].int(), a[6].int());
-        let e = Epoch::maybe_from_gregorian(y as i32, mo as u8, d as u8, h as u8, mi as u8, s as u8, ns as u32, a[7].ts()).unwrap();
-        let got = gregorian_fields(e);
-        (format!("{:?}", got), format!("{:?}", (y as i32, mo as u8, d as u8, h as u8, mi as u8, s as u8, ns as u32)))
-    }},
-    Op { name: "gregorian_fields_of_instant", sig: &[Ty::Dur, Ty::Ts], pre: |a| a[0].total().abs() < 95 * NPC, f: |a| {
-        // decomposing any instant gives valid fields that rebuild the identical epoch
-        let e = Epoch::from_duration(a[0].dur(), a[1].ts());
-        let (y, mo, d, h, mi, s, ns) = gregorian_fields(e);
-        let valid = strict_valid(y as i128, mo as i128, d as i128, h as i128, mi as i128, s as i128, ns as i128) && s < 60;
-        let back = Epoch::maybe_from_gregorian(y, mo, d, h, mi, s, ns, a[1].ts());
-        let same = match back { Ok(b) => b.duration.to_parts() == e.duration.to_parts() && b.time_scale == e.time_scale, Err(_) => false };
-        (if valid && same { "ok".to_string() } else { format!("fields {:?} valid={} rebuilds_identical={}", (y, mo, d, h, mi, s, ns), valid, same) }, "ok".to_string())
-    }},
-    Op { name: "epoch_year_accessors", sig: &[Ty::I32, Ty::U8, Ty::Bool, Ty::Ts], pre: |a| a[0].int().abs() <= 30_000, f: |a| {
-        // the accessors agree with the fields in the epoch's OWN scale, in particular within a minute of a new year
-        let y = a[0].int();
-        let s = a[1].int() % 60;
-        let e = if a[2].boolean() { Epoch::maybe_from_gregorian(y as i32, 12, 31, 23, 59, s as u8, 999_999_999, a[3].ts()) } else { Epoch::maybe_from_gregorian(y as i32, 1, 1, 0, 0, s as u8, 1, a[3].ts()) }.unwrap();
-        let in_year = if a[2].boolean() { (day_index(y, 12, 31) - day_index(y, 1, 1)) * DAY_NS + (23 * 3600 + 59 * 60 + s) * 1_000_000_000 + 999_999_999 } else { s * 1_000_000_000 + 1 };
-        (format!("{} {:?} {}", e.year(), e.month_name(), show_d(e.duration_in_year())),
-         format!("{} {} {}", y, if a[2].boolean() { "December" } else { "January" }, show_total(in_year)))
     }},
     Op { name: "gregorian_build", sig: &[Ty::I32, Ty::U8, Ty::U8, Ty::U8, Ty::U8, Ty::U8, Ty::U32, Ty::Ts], pre: |a| {
         a[0].int().abs() <= 100_000 && strict_valid(a[0].int(), a[1].int(), a[2].int(), a[3].int(), a[4].int(), a[5].int(), a[6].int()) && a[5].int() < 60
